@@ -88,7 +88,15 @@ THEOREMS = {
     "C14": ["Iauthd.Conf.wsGo_reread", "Iauthd.Conf.decodeQ_of_scanQ", "Iauthd.Conf.parseString_spec",
             "Iauthd.Conf.entry_obj_spec", "Iauthd.Conf.parse_fuel_suffices", "Iauthd.Conf.parse_no_fault",
             "Iauthd.Conf.load_total", "Iauthd.Conf.failed_load_inert", "Iauthd.Properties.C14"] + CEX,
-    "C15": [],
+    "C15": ["Iauthd.Conf.merge_ok", "Iauthd.Conf.merge_no_fault", "Iauthd.Conf.load_settles_aux", "Iauthd.Conf.load_settles",
+            "Iauthd.Conf.reload_idem_aux", "Iauthd.Conf.load_idempotent", "Iauthd.Conf.load_twice",
+            "Iauthd.Conf.str_hook_iff", "Iauthd.Conf.list_hook_iff", "Iauthd.Conf.pair_hook_iff", "Iauthd.Conf.updInaddr_val",
+            "Iauthd.Conf.walk_unmodified_keys", "Iauthd.Properties.C15",
+            "Iauthd.Conf.Cex.f9_pinned_use_after_free", "Iauthd.Conf.Cex.f13_pinned_no_hook", "Iauthd.Conf.Cex.f13_fixed_hook",
+            "Iauthd.Conf.Cex.f14_pinned_spurious_hook", "Iauthd.Conf.Cex.f14_fixed_no_hook",
+            "Iauthd.Conf.Cex.f15_pinned_default_installed", "Iauthd.Conf.Cex.f15_pinned_other_order", "Iauthd.Conf.Cex.f15_fixed",
+            "Iauthd.Conf.Cex.f16_pinned_null_host", "Iauthd.Conf.Cex.f16_fixed_default_host",
+            "Iauthd.Conf.Cex.f27_pinned_pointer_bits", "Iauthd.Conf.Cex.f27_fixed_zero"],
     "C16": [],
 }
 
@@ -106,8 +114,13 @@ def lean_targets(prop):
 
 
 def lean_modules(prop):
-    return ["Iauthd.Conf.Lex", "Iauthd.Conf.Parse", "Iauthd.Conf.Typed", "Iauthd.Conf.Tree", "Iauthd.Conf.Model",
-            "Iauthd.Conf.Spec", "Iauthd.Conf.Judge", "Iauthd.Properties." + prop]
+    mods = ["Iauthd.Conf.Lex", "Iauthd.Conf.Parse", "Iauthd.Conf.Typed", "Iauthd.Conf.Tree", "Iauthd.Conf.Model",
+            "Iauthd.Conf.Spec", "Iauthd.Conf.Judge", "Iauthd.Conf.Counterexamples", "Iauthd.Conf.ProofsLex", "Iauthd.Conf.ProofsParse"]
+    if prop == "C14":
+        mods += ["Iauthd.Conf.ProofsRead"]
+    if prop == "C15":
+        mods += ["Iauthd.Conf.ProofsHeap", "Iauthd.Conf.ProofsSettle", "Iauthd.Conf.ProofsHooks"]
+    return mods + ["Iauthd.Properties." + prop]
 
 
 def checker_cmd(prop):
